@@ -1,6 +1,7 @@
 import sys, json, os
 pid=sys.argv[1]
-txt=open(f'/tmp/m/{pid}.txt').read()
+import os
+txt=open(os.path.join(os.path.dirname(os.path.abspath(__file__)), 'props', pid + '.txt')).read()
 prev=[]
 for k in (1,2,3,4,5,6,7,8,9,'a4-1','a4-2'):
     try:
